@@ -235,9 +235,10 @@ function makeEnv() {
 }
 
 // loads the module and activates observation point(s); returns {load?, values: [per item: [v1, v2]]}
-function observe(evalJs, n, only) {
+function observe(evalJs, n, only, flags) {
   const env = makeEnv();
-  const ctx = { names: env.names, flags: false };
+  // flags: also observe the update hints (patch flag, dynamic-prop list, `_` of slot objects)
+  const ctx = { names: env.names, flags: !!flags };
   return withModule(evalJs, env, (out, rec, loadError) => {
     if (loadError) return { load: errStr(loadError), loadName: loadError.name, values: [] };
     const values = [];
